@@ -107,7 +107,7 @@ CHECKS = {
             "Non-interference of the bytes beyond the announced length follows from Rust's slice semantics once these hold. " + TB),
     "C04": ("other", "5.4",
             "who-may-call on the byte source, dominance/edge rules and prover-backed buffer-length equalities in read_packet, header-constant agreement across three sites",
-            "Only read_exact ever reads the source; the read plan is header(3) / +2 on the 0xFF edge / exactly the announced body (length "
+            "Only read_exact ever reads the source, and no buffering / limiting adaptor (BufReader, take, split ..) is put around it; the read plan is header(3) / +2 on the 0xFF edge / exactly the announced body (length "
             "equality proved over Vec-length versions); every read failure returns Err without parsing; header constants, byte order and "
             "offsets agree between Adpu::serialize, Adpu::deserialize, read_packet and the specification. A receive routine of another shape (helpers, a separate header array, appended bytes) is decided by symbolic execution of its buffer operations on every path to the parser (bufsim): same plan, and the parser gets exactly the bytes read, in order.",
             "Chunking/Pending behaviour is tokio's read_exact contract (trusted); per-length byte equality is not decided. " + TB),
